@@ -7,8 +7,8 @@ correspond: X1 extracted lexer model (Names/LexDefs.v lex = readfile + combineOp
             simplecpp::TokenList on the same bytes (harness/vh_c05.cpp, FileStream as cppcheck uses) and vs the
             <rawtokens> of `cppcheck --dump`; X2 the VariableMap class on renamed scripts (vh_c08)
 property:   X3 end to end: P and rewrite(P) through the real binary with --enable=all --inconclusive, findings
-            compared under the rewrite's location / name map (families: whitespace intraline / lines / free,
-            alpha-renaming, reordering of independent top-level items), exclusions in c05_excluded.json
+            compared under the rewrite's location / name map (families: whitespace intraline / lines / free /
+            asymmetric inside one compound statement, alpha-renaming, reordering of independent top-level items), exclusions in c05_excluded.json
 search:     a pair whose findings differ beyond the map is the failing input (replay = two files + two outputs)
 """
 import collections
@@ -78,7 +78,7 @@ def x3_pair(run, fam, ext, p0_text, p1_text, locmap, rho, stats, tag):
     if f0 is None or f1 is None:
         stats["no_xml"] += 1
         return None
-    excl = set(EXCL["whitespace" if fam.startswith("ws") else fam])
+    excl = set(EXCL["whitespace" if fam.startswith("ws") else fam]) | {"unmatchedSuppression"}
     f0 = [f for f in f0 if f["id"] not in excl]
     f1 = [f for f in f1 if f["id"] not in excl]
     a = RW.canon(f0, locmap)
@@ -117,7 +117,7 @@ def check(run, replay):
     run.assumptions += ["g++ compiles /repo faithfully"]
     run.extra["rule"] = ("X1: token soups of 1-14 tokens (12 words, 26 one-character operators) with separators from {none, blanks, LF, CRLF, FF, VT, comments, backslash-newline, control char}; "
                          "non-trivial = distinct input the model handles (not UNSUPPORTED) with at least one separator containing a newline, comment or splice. "
-                         "X3: programs = gen_programs templates (findings of ~60 ids), generated scoped programs, /repo/samples; non-trivial = distinct (family, program) with at least one finding.")
+                         "X3: programs = gen_programs templates (findings of ~60 ids), generated scoped programs, /repo/samples, multi-line candidates whose findings compare two pieces of code (token-identical multi-statement branches, duplicated conditions/expressions on separate lines, repeated statements) with layout changes also inside one compound statement only; non-trivial = distinct (family, program) with at least one finding.")
 
     vlib.ensure_repo_build()
     ok = run.prove()
@@ -207,6 +207,10 @@ def check(run, replay):
         cpp = k % 2 == 1
         src, feats = NC.gen_program(rng, cpp)
         progs.append(("cpp" if cpp else "c", src, "scoped"))
+    # candidates that are layout-sensitive by accident: findings that compare two pieces of code with each other
+    for k in range(8 if quick else 150):
+        src, picks = RW.gen_candidates(rng)
+        progs.append(("c", src, "candidates%s" % picks))
     found = collections.defaultdict(list)
     for k, (ext, src, origin) in enumerate(progs):
         toks = RW.tokenize(src)
@@ -216,6 +220,18 @@ def check(run, replay):
         variants = []
         for mode in ("intraline", "lines", "free"):
             variants.append(("ws-" + mode, src, RW.rw_whitespace(rng, toks, mode)))
+        # layout changes inside ONE compound statement only (one branch of an if/else, one case, one body)
+        for _ in range(4 if origin.startswith("candidates") else 1):
+            ra = RW.rw_asym(rng, toks)
+            if ra:
+                variants.append(("ws-asym", src, ra))
+        if origin.startswith("candidates"):
+            for fam, base, (text, locmap, rho) in variants:
+                d = x3_pair(run, fam, ext, base, text, locmap, rho, stats, "p")
+                if d:
+                    d["origin"] = origin
+                    found[(fam, tuple(d["ids"]))].append(d)
+            continue
         p0 = write(os.path.join(WORK, "x3_names.%s" % ext), src)
         names = RW.main_file_names(p0, ext == "cpp", toks)
         if names:
